@@ -25,7 +25,7 @@ func (fe *FnExec) fail(format string, a ...interface{}) {
 func verifyFunction(p *Program, fn *ssa.Function, c *FuncContract, emit func(*Obligation), maxPaths int) (fe *FnExec) {
 	fe = &FnExec{P: p, Fn: fn, C: c, Mode: c.Mode, preludeSet: map[string]bool{}, initHeap: map[string]Term{},
 		emit: emit, maxPaths: maxPaths, strLits: map[string]Term{}, typeCodes: map[string]int{},
-		safetyOrd: map[ssa.Instruction]int{}, callOrd: map[ssa.Instruction]int{}, usedGhosts: map[int]bool{}}
+		safetyOrd: map[ssa.Instruction]int{}, callOrd: map[ssa.Instruction]int{}, usedGhosts: map[int]bool{}, asyncCallees: map[string]bool{}}
 	defer func() {
 		if r := recover(); r != nil {
 			if ee, ok := r.(execError); ok {
@@ -54,6 +54,9 @@ func verifyFunction(p *Program, fn *ssa.Function, c *FuncContract, emit func(*Ob
 		}
 		for in, o := range fe.callOrd {
 			if ci, ok := in.(ssa.CallInstruction); ok && calleeShortName(ci.Common()) == cg.Callee && o > n {
+				n = o
+			}
+			if pseudoCallName(in) == cg.Callee && o > n {
 				n = o
 			}
 		}
@@ -435,25 +438,72 @@ func (fe *FnExec) checkOnlyClauses() {
 		found := false
 		for _, b := range fe.Fn.Blocks {
 			for _, in := range b.Instrs {
-				call, ok := in.(ssa.CallInstruction)
-				if !ok {
+				site := ""
+				switch x := in.(type) {
+				case *ssa.DebugRef, *ssa.MakeInterface, *ssa.ChangeInterface, *ssa.ChangeType:
 					continue
-				}
-				c := call.Common()
-				uses := false
-				if c.IsInvoke() || !isStaticCallee(c) {
-					uses = derives(c.Value, 0)
-				}
-				for _, a := range c.Args {
-					if derives(a, 0) {
-						uses = true
+				case ssa.CallInstruction:
+					c := x.Common()
+					uses := false
+					if c.IsInvoke() || !isStaticCallee(c) {
+						uses = derives(c.Value, 0)
+					}
+					for _, a := range c.Args {
+						if derives(a, 0) {
+							uses = true
+						}
+					}
+					if !uses {
+						continue
+					}
+					site = fmt.Sprintf("%s#%d", calleeShortName(c), fe.callOrd[in])
+				case *ssa.Send:
+					if !derives(x.X, 0) && !derives(x.Chan, 0) {
+						continue
+					}
+					site = fmt.Sprintf("send#%d", fe.callOrd[in])
+				case *ssa.Store:
+					// assigning to the local is its definition; storing its value elsewhere lets it escape
+					if a, ok := x.Addr.(*ssa.Alloc); ok && a.Comment == oc.Local && !derives(x.Val, 0) {
+						continue
+					}
+					if !derives(x.Val, 0) {
+						continue
+					}
+					if a, ok := x.Addr.(*ssa.Alloc); ok && a.Comment == oc.Local {
+						continue
+					}
+					site = "store"
+				case *ssa.UnOp:
+					if a, ok := x.X.(*ssa.Alloc); ok && a.Comment == oc.Local {
+						continue // the load that produces the value
+					}
+					if !derives(x.X, 0) {
+						continue
+					}
+					site = "use:" + x.Op.String()
+					if x.Op == token.ARROW {
+						site = fmt.Sprintf("recv#%d", fe.callOrd[in])
+					}
+				default:
+					uses := false
+					for _, op := range in.Operands(nil) {
+						if op != nil && *op != nil && derives(*op, 0) {
+							if _, isAlloc := (*op).(*ssa.Alloc); isAlloc {
+								continue
+							}
+							uses = true
+						}
+					}
+					if !uses {
+						continue
+					}
+					site = "use:" + strings.TrimPrefix(fmt.Sprintf("%T", in), "*ssa.")
+					if _, isSel := in.(*ssa.Select); isSel {
+						site = fmt.Sprintf("select#%d", fe.callOrd[in])
 					}
 				}
-				if !uses {
-					continue
-				}
 				found = true
-				site := fmt.Sprintf("%s#%d", calleeShortName(c), fe.callOrd[in])
 				tags := oc.Tags
 				if len(tags) == 0 {
 					tags = []string{"support"}
@@ -465,7 +515,7 @@ func (fe *FnExec) checkOnlyClauses() {
 				fe.nObl++
 				fe.emit(&Obligation{Func: shortFn(fe.Fn.String()), Name: fe.oblName(fmt.Sprintf("only#%d/%s", ci+1, site)), Kind: "frame", Tags: tags,
 					Text: "'" + oc.Local + "' may only be handed to " + strings.Join(oc.Sites, ", ") + " (found: " + site + ")", Pos: fe.pos(in.Pos()),
-					Result: SolverResult{Status: status, Solver: "syntactic", Raw: "static resource discipline: call site " + site + " receives " + oc.Local}})
+					Result: SolverResult{Status: status, Solver: "syntactic", Raw: "static resource discipline: " + site + " uses " + oc.Local}})
 			}
 		}
 		if !found {
@@ -599,6 +649,8 @@ func pseudoCallName(in ssa.Instruction) string {
 	switch x := in.(type) {
 	case *ssa.Send:
 		return "send"
+	case *ssa.MakeChan:
+		return "makechan"
 	case *ssa.Select:
 		return "select"
 	case *ssa.UnOp:
@@ -628,6 +680,41 @@ func (fe *FnExec) pseudoCall(st *State, in ssa.Instruction, name string, args []
 		vars["$result"] = Binding{res, resT}
 	}
 	fe.callSiteAsserts(st, in, calleeInfo{short: name}, ord, fmt.Sprintf("%s#%d", name, ord), vars, nil)
+	fe.applyTallies(st, name, ord, vars)
+}
+
+// applyTallies: "call f#k tally name if cond" - a user-named counter (read with
+// ncalls("name")) that goes up by one each time site f#k completes with cond true.
+func (fe *FnExec) applyTallies(st *State, callee string, ord int, vars map[string]Binding) {
+	for i, cg := range fe.C.CallGhosts {
+		if cg.Callee != callee || cg.Ordinal != ord || cg.Kind != "tally" {
+			continue
+		}
+		fe.usedGhosts[i] = true
+		lenv := fe.localEnv(st, fe.entry)
+		for k, v := range vars {
+			if strings.HasPrefix(k, "$") {
+				lenv.vars[k] = v
+			}
+		}
+		t, err := lenv.evalBool(cg.Val)
+		if err != nil {
+			fe.fail("call %s#%d tally %s (%s): %v", cg.Callee, cg.Ordinal, cg.Name, cg.Text, err)
+		}
+		cur := st.numCalls(cg.Name)
+		st.callNum[cg.Name] = st.define("tally."+cg.Name, Ite(t, Add(cur, IntLit(1)), cur))
+	}
+}
+
+// tallyNamesAt: counters a loop body can change through the given site.
+func (fe *FnExec) tallyNamesAt(callee string, ord int) []string {
+	var out []string
+	for _, cg := range fe.C.CallGhosts {
+		if cg.Callee == callee && cg.Ordinal == ord && cg.Kind == "tally" {
+			out = append(out, cg.Name)
+		}
+	}
+	return out
 }
 
 func calleeShortName(c *ssa.CallCommon) string {
@@ -1077,6 +1164,16 @@ func (fe *FnExec) runBlock(st *State, b *ssa.BasicBlock) {
 				fe.doReturn(st, x)
 				return
 			case *ssa.Panic:
+				if fe.C.PanicsIf != nil {
+					// the contract says when the function is allowed to panic
+					lenv := fe.localEnv(st, fe.entry)
+					t, err := lenv.evalBool(fe.C.PanicsIf.E)
+					if err != nil {
+						fe.fail("panics if (%s): %v", fe.C.PanicsIf.Text, err)
+					}
+					fe.assert(st, t, "safety/panic@"+fe.siteName(in), "safety", []string{"safety"}, "panic only when: "+fe.C.PanicsIf.Text, in.Pos())
+					return
+				}
 				fe.assert(st, TFalse, "safety/panic@"+fe.siteName(in), "safety", []string{"safety"}, "explicit panic unreachable", in.Pos())
 				return
 			default:
@@ -1264,15 +1361,15 @@ func (fe *FnExec) havocLoop(st *State, l *Loop) {
 						fe.keysOfStruct(pt.Elem(), keys)
 					}
 				}
-			case *ssa.Send, *ssa.Select:
-				for _, name := range []string{pseudoCallName(in), fmt.Sprintf("%s#%d", pseudoCallName(in), fe.callOrd[in])} {
+			case *ssa.Send, *ssa.Select, *ssa.MakeChan:
+				for _, name := range append([]string{pseudoCallName(in), fmt.Sprintf("%s#%d", pseudoCallName(in), fe.callOrd[in])}, fe.tallyNamesAt(pseudoCallName(in), fe.callOrd[in])...) {
 					nc := st.freshConst("ncalls."+name, SInt)
 					st.assume(Ge(nc, st.numCalls(name)), "operations so far")
 					st.callNum[name] = nc
 				}
 			case *ssa.UnOp:
 				if x.Op == token.ARROW {
-					for _, name := range []string{"recv", fmt.Sprintf("recv#%d", fe.callOrd[in])} {
+					for _, name := range append([]string{"recv", fmt.Sprintf("recv#%d", fe.callOrd[in])}, fe.tallyNamesAt("recv", fe.callOrd[in])...) {
 						nc := st.freshConst("ncalls."+name, SInt)
 						st.assume(Ge(nc, st.numCalls(name)), "operations so far")
 						st.callNum[name] = nc
@@ -1282,10 +1379,12 @@ func (fe *FnExec) havocLoop(st *State, l *Loop) {
 				// the number of calls made inside the loop is unknown at the head
 				{
 					name := calleeShortName(x.Common())
-					if _, isB := x.Common().Value.(*ssa.Builtin); !isB {
-						nc := st.freshConst("ncalls."+name, SInt)
-						st.assume(Ge(nc, st.numCalls(name)), "calls made so far")
-						st.callNum[name] = nc
+					if _, isB := x.Common().Value.(*ssa.Builtin); !isB || name == "close" {
+						for _, nm := range append([]string{name}, fe.tallyNamesAt(name, fe.callOrd[in])...) {
+							nc := st.freshConst("ncalls."+nm, SInt)
+							st.assume(Ge(nc, st.numCalls(nm)), "calls made so far")
+							st.callNum[nm] = nc
+						}
 					}
 				}
 				alloc, ks := fe.calleeEffectKeys(st, x)
@@ -1630,8 +1729,14 @@ func (fe *FnExec) step(st *State, in ssa.Instruction) {
 			}
 		}
 		fe.fail("%s: phi without matching predecessor", fe.pos(x.Pos()))
-	case *ssa.MakeMap, *ssa.MakeChan:
-		st.vals[x.(ssa.Value)] = Scalar{st.newRef("mk")}
+	case *ssa.MakeChan:
+		ch := Scalar{st.newRef("mkchan")}
+		st.vals[x] = ch
+		if fe.Mode == "permissive" {
+			fe.pseudoCall(st, in, "makechan", []SVal{fe.get(st, x.Size)}, []types.Type{x.Size.Type()}, ch, x.Type())
+		}
+	case *ssa.MakeMap:
+		st.vals[x] = Scalar{st.newRef("mk")}
 	case *ssa.MakeClosure:
 		if fe.Mode != "permissive" {
 			fe.fail("%s: closures are outside the verified subset", fe.pos(x.Pos()))
@@ -1699,7 +1804,37 @@ func (fe *FnExec) step(st *State, in ssa.Instruction) {
 			argT = append(argT, sc.Chan.Type())
 		}
 		fe.pseudoCall(st, in, "select", args, argT, fv, x.Type())
-	case *ssa.Range, *ssa.Next, *ssa.Go, *ssa.Index:
+	case *ssa.Go:
+		if fe.Mode != "permissive" {
+			fe.fail("%s: go statement is outside the strict subset", fe.pos(in.Pos()))
+		}
+		{
+			c := x.Common()
+			var all []SVal
+			if c.IsInvoke() || !isStaticCallee(c) {
+				all = append(all, fe.get(st, c.Value))
+			}
+			for _, a := range c.Args {
+				all = append(all, fe.get(st, a))
+			}
+			ci := fe.calleeInfo(c)
+			if len(ci.ptypes) != len(all) {
+				fe.fail("%s: go %s: %d arguments for %d parameters", fe.pos(in.Pos()), ci.desc, len(all), len(ci.ptypes))
+			}
+			if ci.contract != nil && ci.contract.Mode != "trusted" {
+				// a goroutine under contract: its precondition is checked where it is
+				// started and it interferes only through its declared frame; its
+				// postcondition is not assumed (it has merely been started)
+				fe.asyncCall = true
+				fe.applyContract(st, in, ci, all)
+				fe.asyncCall = false
+				fe.asyncCallees[ci.desc] = true
+			} else {
+				// unknown goroutine: arbitrary interference with what the arguments reach
+				fe.havocCall(st, in, ci, all)
+			}
+		}
+	case *ssa.Range, *ssa.Next, *ssa.Index:
 		if fe.Mode != "permissive" {
 			fe.fail("%s: instruction %T is outside the verified subset", fe.pos(in.Pos()), in)
 		}
@@ -1984,6 +2119,22 @@ func (fe *FnExec) convert(st *State, x *ssa.Convert) SVal {
 		h := st.heapArr("elems:uint8", SArray(SInt, SArray(SInt, SInt)))
 		name := fe.uninterp("str_of_bytes", []Term{Select(h, sl.Arr), sl.Off, sl.Len}, SStr)
 		return Scalar{App(SStr, name, Select(h, sl.Arr), sl.Off, sl.Len)}
+	}
+	// []byte(string): a fresh array holding the bytes of the string
+	if ts, isSlice := to.(*types.Slice); isSlice && fok && fb.Info()&types.IsString != 0 {
+		if eb, ok := ts.Elem().Underlying().(*types.Basic); ok && eb.Kind() == types.Uint8 {
+			str := v.(Scalar).T
+			arr := st.newRef("bytes.arr")
+			n := App(SInt, "strlen", str)
+			key := elemKey(ts.Elem())
+			h := st.heapArr(key, SArray(SInt, SArray(SInt, SInt)))
+			na := st.freshConst("bytes", SArray(SInt, SInt))
+			i := Term{"i!sb", SInt}
+			st.assume(Forall([]BoundVar{{"i!sb", SInt}}, Implies(And(Ge(i, IntLit(0)), Lt(i, n)), Eq(Select(na, i), App(SInt, "strbyte", str, i))), []Term{Select(na, i)}),
+				"bytes of the converted string")
+			st.setHeap(key, Store(h, arr, na))
+			return SliceV{arr, IntLit(0), n, n}
+		}
 	}
 	if fe.Mode == "permissive" {
 		fv, err := st.freshValue("conv", x.Type())
